@@ -22,7 +22,7 @@ ASSUMPTIONS = ['clock tolerance (ops+4) ulp of the largest time; content toleran
                'descending bands negate the chirp term 2 pi((f-fch1)t + drift t^2/2), then add the user phase',
                'noise identity is a metamorphic relation against the same code under a different chunking']
 REQUIRED_CLASSES = ['kind=stream', 'kind=antenna1', 'kind=antenna2', 'noise=1', 'noise=2', 'chirp', 'custom_complex',
-                    'op=set_time', 'op=add_time', 'op=update_noise', 'op=reset_start', 'requests>=2', 'desc', 'asc']
+                    'op=set_time', 'op=add_time', 'op=update_noise', 'op=reset_start', 'requests>=2', 'desc', 'asc', 'equal_size_after_get', 'equal_size_after_update_noise', 'equal_size_after_clock_change', 'custom_single_precision']
 
 RATES = [1e6, 3e9, 2.048e9, 187.5e6, 3.3e9]
 
@@ -33,11 +33,15 @@ def source_list():
                                    'drift': st.one_of(st.just(0.0), gen.finite(-1e9, 1e9), gen.finite(-10, 10)),
                                    'level': gen.finite(0.01, 10), 'phase': st.one_of(st.just(0.0), gen.finite(-3.2, 3.2))})
     custom = st.fixed_dictionaries({'kind': st.just('custom'), 'complex': st.booleans(),
+                                    'single': st.sampled_from([False, False, True]),     # complex64 / float32 samples (IQ data)
                                     'a': gen.finite(0.01, 5), 'frac': gen.finite(0.001, 0.4)})
     return st.lists(st.one_of(noise, noise, chirp, chirp, custom), min_size=0, max_size=4)
 
 
+_sizes = st.one_of(st.sampled_from([16, 64, 100]), st.sampled_from([16, 64, 100]), st.integers(1, 120))
 op = st.one_of(
+    st.fixed_dictionaries({'op': st.just('get'), 'n': _sizes}),
+    st.fixed_dictionaries({'op': st.just('update_noise'), 'n': st.sampled_from([16, 64, 100])}),
     st.fixed_dictionaries({'op': st.just('get'), 'n': st.integers(1, 120)}),
     st.fixed_dictionaries({'op': st.just('get'), 'n': st.integers(1, 120)}),
     st.fixed_dictionaries({'op': st.just('get'), 'n': st.one_of(st.integers(1, 40), st.integers(1, 400))}),
@@ -84,6 +88,9 @@ def add_sources(stream, srcs, sr, fch1, ascending):
                 fn = lambda ts, a=s['a'], f0=f0: a * np.exp(2j * np.pi * f0 * ts)
             else:
                 fn = lambda ts, a=s['a'], f0=f0: a * np.sin(2 * np.pi * f0 * ts)
+            if s.get('single'):
+                base = fn
+                fn = (lambda ts, base=base: base(ts).astype(np.complex64)) if s['complex'] else (lambda ts, base=base: base(ts).astype(np.float32))
             stream.add_signal(fn)
             evals.append(((lambda ts, fn=fn: (fn(ts), 0.0)), 0.0))
     return evals
@@ -140,11 +147,14 @@ def run_case(case, ctx):
     has_complex = [any(s['kind'] == 'custom' and s['complex'] for s in src[p]) for p in range(npol)]
     if any(has_complex):
         obs.cls('custom_complex')
+    if any(s['kind'] == 'custom' and s.get('single') for p in range(npol) for s in src[p]):
+        obs.cls('custom_single_precision')
 
     clock = Fraction(t0)
     dt_q = 1 / Fraction(sr)
     consumed = 0
     nops = 0
+    last = {'n': None, 'op': None}
     sizes = []
     tmax = abs(t0)
 
@@ -209,8 +219,12 @@ def run_case(case, ctx):
             consumed += n
             clock += n * dt_q
             tmax = max(tmax, float(abs(clock)))
+            if last['n'] == n:
+                obs.cls('equal_size_after_' + last['op'])
             sizes.append(n)
+            last['n'], last['op'] = n, 'get'
         elif name == 'set_time':
+            last['op'] = 'clock_change' if last['op'] == 'get' else last['op']
             ok, _ = core.call(obs, 'set_time', top.set_time, o['t'])
             if not ok:
                 return obs
@@ -220,6 +234,7 @@ def run_case(case, ctx):
                 if val != o['t']:
                     obs.fail('set_time_exact', f'{name_} {val!r} vs {o["t"]!r}')
         elif name == 'add_time':
+            last['op'] = 'clock_change' if last['op'] == 'get' else last['op']
             ok, _ = core.call(obs, 'add_time', top.add_time, o['t'])
             if not ok:
                 return obs
@@ -236,6 +251,7 @@ def run_case(case, ctx):
                 if not ok:
                     return obs
             consumed += n       # the estimate draws n samples from every noise source, the clock is restored
+            last['n'], last['op'] = n, 'update_noise'
         if not check_clock(name):
             return obs
     if sizes:
